@@ -24,6 +24,9 @@ RULE = ("mask part: one evaluation = one (value, spelling, context) line through
         "anonymizers with every window address pushed forward and every inside address pulled "
         "back; distinct_nontrivial = distinct non-mask values replaced + distinct executions "
         "with addresses on both sides of a network")
+STATE_COUNTING = ("stateless exploration of the environment: states = complete executions of the real code "
+                  "(leaves of the choice tree), transitions = environment answers given along them (edges), "
+                  "traces_validated = executions, each run directly on the implementation (no model)")
 ASSUMPTIONS = ["network menu: /8 /12 /16 /24 /30 /32 on window bases + the RFC 1918 blocks, "
                "singletons and pairs", "reference mask definition: ones-then-zeros or zeros-then-ones"]
 
@@ -273,6 +276,9 @@ class LazyPart(Part):
         for ch, imgs in runs:
             n_exec += 1
             res.evals += 1
+            res.states += 1
+            res.transitions += (len(ch.trace) if ch is not None else 0)
+            res.traces += 1
             table = ch.table() if ch is not None else case["table"]
             nd = sorted(k for k, v in table.items() if v != case["default"])
             res.nt((json.dumps(case, sort_keys=True), nd))
